@@ -610,7 +610,12 @@ func RuleH3(c *Ctx) {
 			body := innermostBody(fd, as)
 			slot := c.slotOf(pk, fd, body, lhs)
 			if slot == "" {
-				return true // a fresh local structure being filled
+				if freshLocal(pk, c.CFG(pk, body.body), lhs) {
+					return true // a structure created in this function is being filled
+				}
+				n++
+				sc.Violation(fmt.Sprintf("%s:unresolved#%d", m.Name(), n), c.P.Pos(as.Pos()), "UNDECIDED: store into "+types.ExprString(lhs)+" whose target in the catalog model cannot be resolved")
+				return true
 			}
 			n++
 			key := fmt.Sprintf("%s:%s", m.Name(), slot)
@@ -649,13 +654,45 @@ func RuleH3(c *Ctx) {
 				ok2 = cfOuter.MustAt(as, gen(body), nil, nil)
 			}
 			if ok2 {
-				sc.Holds(key, pos, "dominated by a test that the slot is empty")
+				// the occupied branch must reject: some `if <slot is not zero> { ... return <error> }`
+				rejects := false
+				ast.Inspect(fd.Body, func(y ast.Node) bool {
+					ifs, ok := y.(*ast.IfStmt)
+					if !ok || ifs.Else != nil {
+						return true
+					}
+					be, ok := ast.Unparen(ifs.Cond).(*ast.BinaryExpr)
+					if !ok || be.Op != token.NEQ {
+						return true
+					}
+					bi := innermostBody(fd, ifs)
+					if bi.lit != nil {
+						return true // a test inside a callback cannot return the error to the caller
+					}
+					if c.slotOf(pk, fd, bi, be.X) == slot && endsWithErrorReturn(info, ifs.Body) {
+						rejects = true
+					}
+					return true
+				})
+				switch {
+				case rejects:
+					sc.Holds(key, pos, "dominated by a test that the slot is empty; an occupied slot is an error")
+				case h3SilentOK[key] != "":
+					sc.Exception(key, pos, h3SilentOK[key])
+				default:
+					sc.Violation(key, pos, fmt.Sprintf("slot %s is protected against overwriting, but an occupied slot is not reported: a second directive of a kind that may occur once is silently ignored (the first one wins) instead of being rejected", slot))
+				}
 			} else {
 				sc.Violation(key, pos, fmt.Sprintf("slot %s is assigned without a test that it is still empty: a second directive of a kind that may occur once silently overwrites the first (the last one wins) instead of being rejected", slot))
 			}
 			return true
 		})
 	}
+}
+
+// h3SilentOK: setters whose slot is created on first use by design.
+var h3SilentOK = map[string]string{
+	"AddRequest:c.Interactions[httpID].Request": "the Request record is created on first use: the Request directive and its Body child both call the same setter; Request itself is not in the property's list of singletons",
 }
 
 func callReceivingLit(fd *ast.FuncDecl, lit *ast.FuncLit) *ast.CallExpr {
@@ -699,6 +736,12 @@ func (c *Ctx) slotOf(pk *pkgT, fd *ast.FuncDecl, bi bodyInfo, e ast.Expr) string
 		case *ast.StarExpr:
 			cur = ast.Unparen(x.X)
 			continue
+		case *ast.UnaryExpr:
+			if x.Op == token.AND {
+				cur = ast.Unparen(x.X)
+				continue
+			}
+			return ""
 		case *ast.CallExpr:
 			// COLL.GetValue(k) / COLL.Get(k)
 			if f := Callee(info, x); f != nil && (f.Name() == "GetValue" || f.Name() == "Get") && len(x.Args) == 1 {
@@ -813,4 +856,121 @@ func RuleK1(c *Ctx) {
 		}
 		sc.Violation(name, "-", fmt.Sprintf("directive kind %s has no handler in the table and is matched by no consumer: a directive of this kind is accepted by the scanner and then silently ignored", name))
 	}
+}
+
+// RuleCK1: handlers that register a path run the similar-paths check on every
+// successful path.
+func RuleCK1(c *Ctx) {
+	sc := c.Run.Begin("CK1", "every directive handler that derives path parameters (PathParameters) runs the similar-paths check on them on every path that does not end in an error", 2)
+	defer sc.End()
+	pp := c.Func("core", "PathParameters")
+	chk := c.Func("core", "JApiCore.checkSimilarPaths")
+	table := c.handlerTable()
+	if pp == nil || chk == nil || len(table) == 0 {
+		sc.Undecided("anchors", "-", "unresolved anchor: core.PathParameters / checkSimilarPaths / handler table")
+		return
+	}
+	seen := map[*types.Func]bool{}
+	for _, h := range table {
+		if seen[h] {
+			continue
+		}
+		seen[h] = true
+		fd := c.P.Decl(h)
+		if fd == nil {
+			continue
+		}
+		pk := c.P.PkgOfDecl(fd)
+		info := pk.TypesInfo
+		calls := false
+		ast.Inspect(fd.Body, func(n ast.Node) bool {
+			if call, ok := n.(*ast.CallExpr); ok && Callee(info, call) == pp {
+				calls = true
+			}
+			return true
+		})
+		if !calls {
+			continue
+		}
+		cf := c.CFG(pk, fd.Body)
+		genStmt := func(nd ast.Node) bool {
+			found := false
+			ast.Inspect(nd, func(x ast.Node) bool {
+				if call, ok := x.(*ast.CallExpr); ok && Callee(info, call) == chk {
+					found = true
+				}
+				return true
+			})
+			return found
+		}
+		bad := ""
+		nRet := 0
+		ast.Inspect(fd.Body, func(n ast.Node) bool {
+			if _, isLit := n.(*ast.FuncLit); isLit {
+				return false
+			}
+			ret, ok := n.(*ast.ReturnStmt)
+			if !ok || len(ret.Results) != 1 {
+				return true
+			}
+			// an error return built on the spot is not a success path
+			if call, ok := ast.Unparen(ret.Results[0]).(*ast.CallExpr); ok {
+				if g := Callee(info, call); g != nil && (g.Name() == "KeywordError" || g.Name() == "BodyError") {
+					return true
+				}
+			}
+			nRet++
+			if !cf.MustAt(ret, nil, genStmt, nil) {
+				bad = c.P.Pos(ret.Pos())
+			}
+			return true
+		})
+		key := h.Name()
+		if bad == "" {
+			sc.Holds(key, c.P.Pos(fd.Pos()), fmt.Sprintf("%d non-error returns, all after the similar-paths check", nRet))
+		} else {
+			sc.Violation(key, c.P.Pos(fd.Pos()), "the return at "+bad+" can be reached without running checkSimilarPaths on the path parameters: two paths that differ only in a parameter name are accepted when they go through this branch")
+		}
+	}
+}
+
+// freshLocal: the access path is rooted at a local variable that this function
+// created (composite literal, new, constructor call) - not yet part of the model.
+func freshLocal(pk *pkgT, cf *cfgx.Func, e ast.Expr) bool {
+	info := pk.TypesInfo
+	root := cfgx.RootObj(info, e)
+	v, ok := root.(*types.Var)
+	if !ok || v.IsField() {
+		return false
+	}
+	var def ast.Expr
+	ast.Inspect(cf.Body, func(n ast.Node) bool {
+		if as, ok := n.(*ast.AssignStmt); ok && len(as.Lhs) == len(as.Rhs) {
+			for i, l := range as.Lhs {
+				if id, ok := l.(*ast.Ident); ok && info.ObjectOf(id) == root {
+					def = as.Rhs[i]
+				}
+			}
+		}
+		if vs, ok := n.(*ast.ValueSpec); ok {
+			for _, nm := range vs.Names {
+				if info.ObjectOf(nm) == root && len(vs.Values) == 0 {
+					def = &ast.CompositeLit{}
+				}
+			}
+		}
+		return true
+	})
+	switch x := ast.Unparen(def).(type) {
+	case *ast.CompositeLit:
+		return true
+	case *ast.UnaryExpr:
+		_, isLit := x.X.(*ast.CompositeLit)
+		return isLit
+	case *ast.CallExpr:
+		if id, ok := x.Fun.(*ast.Ident); ok && (id.Name == "new" || strings.HasPrefix(id.Name, "New") || strings.HasPrefix(id.Name, "new")) {
+			return true
+		}
+	}
+	return false
 }
